@@ -287,8 +287,8 @@ def run_server_all(cas, passes):
         serving.socket = saved
 
 
-def run_client_all(passes):
-    """passes: list of [recv results]; one TcpClientStack.serviceAll() per element.
+def run_client_all(passes, entry="serviceAll"):
+    """passes: list of [recv results]; one TcpClientStack.serviceAll() (or serviceAllRx()) per element.
     obs per pass = ([delivered packets... cumulative], rxbs, cutoff, unconsumed)"""
     from ioflo.aio.tcp import clienting
     from ioflo.aio.proto import stacking
@@ -314,7 +314,10 @@ def run_client_all(passes):
             sock = client.cs
             for orc in passes:
                 sock.recv_orc = list(orc)
-                stack.serviceAll()
+                if entry == "serviceAll":
+                    stack.serviceAll()
+                elif not client.cutoff:          # serviceAll's own guard in front of serviceAllRx
+                    stack.serviceAllRx()
                 out.append((list(delivered), bytes(stack.rxbs), bool(client.cutoff), len(sock.recv_orc)))
                 sock.recv_orc = []
         except Exception as ex:
